@@ -13,6 +13,7 @@ passes and any changed row is the witness.
 from __future__ import annotations
 
 import ast
+import types
 import itertools
 from pathlib import PurePath
 from typing import Any, Callable
@@ -988,7 +989,7 @@ class Interp:
                 return ("native", obj, attr)
             raise Raised("AttributeError")
         # python-native value: expose a whitelisted method
-        if isinstance(obj, (str, list, tuple, dict, set, frozenset, int, bool)):
+        if isinstance(obj, (str, list, tuple, dict, set, frozenset, int, bool, types.MappingProxyType)):  # mappingproxy: a read-only dict view (Signature.parameters)
             if not hasattr(obj, attr):
                 raise Raised("AttributeError")
             return ("native", obj, attr)
